@@ -130,8 +130,10 @@ pub const VC_KP_9: u16 = 0x0049;
 pub const VC_KP_0: u16 = 0x0052;
 // End Numeric Zone
 
-pub(crate) fn keycode_to_char(key: u16) -> char {
-    match key {
+/// Returns the character of the `key`, or `None` if the key has no
+/// character (like the keypad Enter key) or is not a known key.
+pub(crate) fn keycode_to_char(key: u16) -> Option<char> {
+    let character = match key {
         // Alphanumeric keys
         VC_GRAVE => '`',
         VC_TILDE => '~',
@@ -252,6 +254,8 @@ pub(crate) fn keycode_to_char(key: u16) -> char {
         VC_KP_ADD => '+',
         VC_KP_DECIMAL => '.',
 
-        _ => panic!("Got unknown key!"),
-    }
+        _ => return None,
+    };
+
+    Some(character)
 }
